@@ -349,24 +349,28 @@ Block == /\ height < MaxHeight /\ pend = {}
 (* The HTLCs the model checker sends: amounts around the value, totals     *)
 (* matching / mismatching / too low, right / other / nobody's / no         *)
 (* address, expiry at the required margin -1 / 0 / +1 (AMP: -1 / 0, totals *)
-(* V and V+1, both sets, good and bad shares), keysend with a good or bad  *)
-(* preimage.  AMP / keysend payloads only when such an invoice exists.     *)
-ExpOf(k, m) == height + Need(k) + m
+(* V and V+1, both sets, good and bad shares) or already below the current *)
+(* height, keysend with a good or bad preimage.  AMP / keysend payloads     *)
+(* only when such an invoice exists.                                       *)
+\* expiries: the required margin -1 / 0 / +1, and HTLCs that have ALREADY expired (re-forwarded after
+\* downtime, or a malicious peer): one block, ten blocks and far below the current height
+Expired == {height - 1, height - 10, height - 90}
+Exps(k) == {height + Need(k) + m : m \in {-1, 0, 1}} \cup Expired
+ExpsAmp(k) == {height + Need(k) + m : m \in {-1, 0}} \cup Expired
 HasKind(x) == kinds[1] = x \/ kinds[2] = x
 Params(c) ==
-     {[c |-> c, pl |-> "legacy", h |-> h, ad |-> 0, amt |-> a, tot |-> 0, exp |-> ExpOf(h, m), set |-> "none", good |-> TRUE]
-        : h \in Inv, a \in Amts, m \in {-1, 0, 1}}
-  \cup {[c |-> c, pl |-> "mpp", h |-> h, ad |-> ad, amt |-> a, tot |-> t, exp |-> ExpOf(h, m), set |-> "none", good |-> TRUE]
-        : h \in Inv, ad \in 0..2, a \in Amts, t \in Tots, m \in {-1, 0, 1}}
+     UNION {{[c |-> c, pl |-> "legacy", h |-> h, ad |-> 0, amt |-> a, tot |-> 0, exp |-> e, set |-> "none", good |-> TRUE]
+               : a \in Amts, e \in Exps(h)} : h \in Inv}
+  \cup UNION {{[c |-> c, pl |-> "mpp", h |-> h, ad |-> ad, amt |-> a, tot |-> t, exp |-> e, set |-> "none", good |-> TRUE]
+               : ad \in 0..2, a \in Amts, t \in Tots, e \in Exps(h)} : h \in Inv}
   \cup (IF HasKind("amp")
-          THEN UNION {{[c |-> c, pl |-> "amp", h |-> 0, ad |-> ad, amt |-> a, tot |-> t, exp |-> ExpOf(IF ad = 0 THEN 1 ELSE ad, m),
-                        set |-> s, good |-> g]
-                        : ad \in 0..2, a \in Amts, t \in Tots \ {V - 1}, m \in {-1, 0},
-                          g \in {x \in BOOLEAN : x => c \in Members(s)}} : s \in Sets}
+          THEN UNION {{[c |-> c, pl |-> "amp", h |-> 0, ad |-> sa[2], amt |-> a, tot |-> t, exp |-> e, set |-> sa[1], good |-> g]
+                        : a \in Amts, t \in Tots \ {V - 1}, e \in ExpsAmp(IF sa[2] = 0 THEN 1 ELSE sa[2]),
+                          g \in {x \in BOOLEAN : x => c \in Members(sa[1])}} : sa \in Sets \X (0..2)}
           ELSE {})
   \cup (IF HasKind("keysend")
-          THEN {[c |-> c, pl |-> "keysend", h |-> h, ad |-> 0, amt |-> a, tot |-> 0, exp |-> ExpOf(h, m), set |-> "none", good |-> g]
-                 : h \in {x \in Inv : Kind(x) = "keysend"}, a \in Amts, m \in {-1, 0, 1}, g \in BOOLEAN}
+          THEN UNION {{[c |-> c, pl |-> "keysend", h |-> h, ad |-> 0, amt |-> a, tot |-> 0, exp |-> e, set |-> "none", good |-> g]
+                        : a \in Amts, e \in Exps(h), g \in BOOLEAN} : h \in {x \in Inv : Kind(x) = "keysend"}}
           ELSE {})
 
 Next == \/ \E c \in C : \E p \in Params(c) : Notify(p) \/ (pend = {} /\ KsInsert(p))
